@@ -48,8 +48,6 @@ res = os.path.join(work, "out.json")
 env = dict(GOENV); env["VERIF_REPO"] = REPO
 rc, out = sh([exe, "-work", work, "-out", res, "-seed", str(ck.seed), "-tier", ck.tier], timeout=6000, env=env)
 if rc != 0 or not os.path.exists(res):
-    # the builder or the dominator construction crashed on some input: that is a violation candidate,
-    # but without the per-function record there is no replay beyond the log
     where, src = "", None
     try:
         where = open(os.path.join(work, "progress.txt")).read().strip()
@@ -64,9 +62,13 @@ if rc != 0 or not os.path.exists(res):
         # the builder / dominator construction crashed: the corpus item and mode being built are the failing input
         ck.violation("crash|" + where, "building IR for %s crashed: %s" % (where, m.group(1)[:300]),
                      {"item_and_mode": where, "log": out[-6000:], "source": src or {"dir": where}, "seed": ck.seed})
+        # lifting consumes the dominator tree and may crash on a wrong one; NaiveForm does not lift, so the
+        # same corpus in the NaiveForm modes shows WHICH function's tree is wrong
+        rc, out2 = sh([exe, "-work", work, "-out", res, "-seed", str(ck.seed), "-tier", ck.tier, "-naiveonly"], timeout=6000, env=env)
     else:
         ck.violation("harness-run", "harness run failed: " + out[-800:], {"log": out[-6000:], "seed": ck.seed}, no_input=True)
-    ck.finish({"evaluations": 1, "distinct_nontrivial": 0, "rule": "n/a", "samples": ["harness run failed"]})
+    if rc != 0 or not os.path.exists(res):
+        ck.finish({"evaluations": 1, "distinct_nontrivial": 0, "rule": "n/a", "samples": ["harness run failed"]})
 data = json.load(open(res))
 cases = data["Cases"]
 ck.log("harness: %d (function, mode) pairs, %d distinct (CFG, observation) cases, %d skipped over %d blocks"
@@ -157,6 +159,12 @@ for name, (rc, out) in sorted(results.items()):
             ck.violation(key, "go/ir dominance answers for %s (%s, mode %s, %d blocks) are not exact: failed clauses %s"
                          % (c["Func"], c["Corpus"], c["Mode"], c["Stats"]["Blocks"], clauses),
                          {"case": describe(c), "failed_clauses": clauses, "source": source_of(c)})
+for c in cases:
+    if c["Dom"].get("Aliased"):
+        ck.violation("%s|%s|%s|aliased-listing" % (c["Corpus"] if c["Corpus"].startswith(("repo", "testdata")) else "gen", c["Func"], c["Mode"]),
+                     "DomPreorder/DomPostorder of %s (%s, mode %s) returned the same slice to two successive calls (documented: a new slice)"
+                     % (c["Func"], c["Corpus"], c["Mode"]), {"case": describe(c), "source": source_of(c)})
+        break
 for c in bad_serial:
     ck.violation("%s|%s|%s|dangling-block" % (c["Corpus"], c["Func"], c["Mode"]),
                  "a Succs/Idom/Dominees/DomPreorder entry of %s is a block that is not in fn.Blocks" % c["Func"],
